@@ -188,6 +188,41 @@ def gen_far(rng):
     return join([n, t, ts, unit], ops)
 
 
+def gen_beyond(rng):
+    """The whole history lives beyond 2^64 ns (a queue created with new_at out there): events are scheduled a few
+    bucket widths ahead of the clock and fetched normally, so bucket-index arithmetic is exercised on timestamps that
+    do not fit in 64 bits of nanoseconds."""
+    unit = 1 << rng.choice([32, 34, 36])
+    c = rng.choice([1, 2, 4, 8])
+    t = unit // c
+    n = rng.choice([1, 3, 7, 10, 32])
+    ts = (1 << 64) // unit + rng.randint(0, 50)
+    ref = Ref(ts)
+    ops = []; pay = 100
+    for _ in range(rng.randint(5, 50)):
+        r = rng.random()
+        if r < 0.5:
+            time = ref.tcur + rng.choice([0, 0, 1, 1, 2, 3, rng.randint(0, 40)])
+            if rng.random() < 0.08 and ref.tcur > ts:
+                time = ref.tcur - 1          # contract violation
+            ops.append([1, time, pay]); ref.add(time, pay); pay += 1
+        elif r < 0.78:
+            ops.append([3]); ref.fetch()
+        elif r < 0.9:
+            k = rng.randint(0, len(ref.handles) + 1)
+            ops.append([2, k]); ref.cancel(k)
+        elif r < 0.94:
+            ops.append([6])
+        elif r < 0.97:
+            ops.append([7])
+        else:
+            ops.append([rng.choice([4, 5])])
+    for _ in range(len(ref.pending()) + 1):
+        ops.append([3]); ref.fetch()
+    ops.append([4])
+    return join([n, t, ts, unit], ops)
+
+
 def walk(script, out):
     """Align implementation output records with operations. Yields (op, record) or raises."""
     hdr, ops = split(script)
